@@ -6,7 +6,7 @@ import xml.etree.ElementTree as ET
 
 import numpy as np
 
-from vlib import evlog, fitsgen, instr_mp, models, ref_study, tilegen
+from vlib import evlog, fitsgen, instr_mp, models, ref_study, sched, tilegen
 
 PROPERTY = "C09"
 LEVEL = "exploration"
@@ -16,7 +16,8 @@ RULE = (
     "one case = one random mosaic (260-1100 px per axis; F32 with NaN gaps, or I16) decomposed into 1-9 rectangles (disjoint or overlapping "
     "by 0-40 px, some with NaN borders so that an undefined pixel of a later input lies over a defined pixel of an earlier one), written "
     "as FITS pieces on the common TAN grid (bottom-up or top-down), in a random order, tiled by MultiTanProcessor (API) or "
-    "`toasty tile-multi-tan` with k in {1,2,3,8} workers under instrumented multiprocessing. Oracle: (a) the pasted mosaic tiled as ONE "
+    "`toasty tile-multi-tan` with k in {1,2,3,8} workers under instrumented multiprocessing (a third of the runs with statement-boundary "
+    "delays inside toasty's tile I/O and a 300x dilated lock-time-out clock). Oracle: (a) the pasted mosaic tiled as ONE "
     "study image through Builder gives the same deepest-level file set, identical pixels, and the same ImageSet/Place fields (object and "
     "index_rel.wtml, rel 1e-9); (b) the deepest tiles equal an independent cut of the padded canvas; (c) a second run with another input "
     "order / the other parity / another worker count gives identical tiles; (d) no *.lock remains. Non-trivial: >= 2 inputs sharing at "
@@ -33,7 +34,10 @@ def cases(tier, seed):
     for i in range(60 if tier == "quick" else 2000):
         out.append(dict(W=R.randrange(260, 1100), H=R.randrange(260, 1100), n=R.choice([1, 2, 3, 4, 6, 9]), overlap=R.choice([0, 0, 7, 40]),
                         nanborder=R.choice([0, 0, 3]), dtype=R.choice(["F32", "F32", "F32", "I16"]), bu=R.random() < 0.5, par=R.choice([1, 2, 3, 8]),
-                        via=R.choice(["api", "api", "cli"]), profile=R.choice(["jitter", "slow_workers", "natural"]), seed=R.randrange(1 << 30)))
+                        via=R.choice(["api", "api", "cli"]), profile=R.choice(["jitter", "slow_workers", "natural", "stall", "late_check", "slow_feeder"]), seed=R.randrange(1 << 30),
+                        hostile=(i % 3 == 0)))
+        if out[-1]["hostile"]:
+            out[-1].update(par=R.choice([2, 3, 8]), n=R.choice([3, 4, 6, 9]), overlap=R.choice([7, 40]))
     return out
 
 
@@ -110,6 +114,16 @@ def run_multi_tan(spec, paths, out, par, via, log, profile):
             b.write_index_rel_wtml()
 
     if par > 1:
+        if spec.get("hostile"):
+            # workers are descheduled between statements of toasty's tile I/O (also inside the locked region), on a clock
+            # on which 40 ms are twelve seconds: a lock that is held "too long" is still held
+            inner = fn
+
+            def fn():
+                sched.dilate_clocks(300.0, names=("perf_counter",))
+                sched.install(spec["seed"], p=0.04, files=("pyramid.py", "multi_tan.py"), lo=0.002, hi=0.15, budget=2.5)
+                inner()
+
         outcome, info = models.run_stage(fn, log, "producer", watchdog=200)
     else:
         evlog.ev("stage_call")
@@ -268,7 +282,7 @@ def run_case(spec, workdir):
         for t in ref_study.tiles_for_rect(g["gx0"] + x0, g["gy0"] + y0, w, h):
             shared[t] += 1
     nshared = sum(1 for v in shared.values() if v >= 2)
-    res = dict(counters=dict(mosaics=1, mosaics_layered=int(layers), tiles_compared=ntiles, shared_tiles=nshared, **{"par_%d" % spec["par"]: 1, "via_" + spec["via"]: 1, "bu_%s" % spec["bu"]: 1}),
+    res = dict(counters=dict(mosaics=1, mosaics_layered=int(layers), mosaics_hostile_schedule=int(bool(spec.get("hostile")) and spec["par"] > 1), tiles_compared=ntiles, shared_tiles=nshared, **{"par_%d" % spec["par"]: 1, "via_" + spec["via"]: 1, "bu_%s" % spec["bu"]: 1}),
                nontrivial=(len(rects) >= 2 and nshared >= 1), sample=dict(spec=spec, rects=rects, order=order, levels=g["levels"]))
     if probs:
         keys = sorted({k.split(" ")[0] for k, _ in probs})
